@@ -15,6 +15,7 @@ import numpy as np
 from . import common as C
 from .common import ctx_for
 from . import taylor
+from engine import fpcheck
 
 HARNESS = C.Harness("h_core.cpp", assertions=True, extra_defines=["VS_STUB_LARGE_INVERSE", "VS_NO_SMALLADJ"])
 
@@ -88,6 +89,7 @@ def check_primitives(rep, g, tier, seed):
     for c in _paths(rep, g, "exp", [("t", "T")], seed, "exp"):
         rep.progress("%s exp[%s] obligations" % (g, c.path.script))
         taylor.with_taylor(c, TAU, lambda c=c: c.deriv_group("J", c.vec("out"), c.out("J"), "t"))
+        fpcheck.compare(rep, c, ["out", "J"], TAU, "exp")
     for c in _paths(rep, g, "log", [("x", "G")], seed, "log"):
         rep.progress("%s log[%s] obligations" % (g, c.path.script))
         M = c.inverse_stub_of("J")
@@ -95,4 +97,6 @@ def check_primitives(rep, g, tier, seed):
             rep.trust("A-EIGEN-INV: for N>4 Eigen's M.inverse() returns X with M*X = I (det M != 0); used for the "
                       "numeric-inverse fallback rjacinv()/ljacinv() of groups without closed forms")
         taylor.with_taylor(c, TAU, lambda c=c, M=M: c.deriv_vec("J", c.vec("out"), c.out("J"), "x", J_inverse_of=M))
+        if M is None:
+            fpcheck.compare(rep, c, ["out", "J"], TAU, "log")
     rep.progress("%s done" % g)
